@@ -338,7 +338,11 @@ func RunFamily(f Family, o Options) *FamilyReport {
 				if Prelude != nil {
 					Prelude(&cases[i])
 				}
+				t1 := time.Now()
 				outs[i] = f.Run(&cases[i])
+				if d := time.Since(t1); d > 2*time.Second && os.Getenv("VERIF_SLOW") != "" {
+					fmt.Fprintf(os.Stderr, "slow case %.1fs %s cfg=%s input=%s\n", d.Seconds(), f.Name(), cases[i].Cfg, cases[i].Input)
+				}
 				completed.Add(1)
 				if len(cases) > 20000 {
 					outs[i].Replay = nil // regenerated for the few cases that need a replay file
